@@ -421,7 +421,8 @@ class Parser:
         self._expect(TokenType.LPAREN, "Expected '(' after 'while'")
         test = self._parse_expression()
         self._expect(TokenType.RPAREN, "Expected ')' after condition")
-        self._consume_semicolon()
+        # (a semicolon is inserted after do-while whatever follows)
+        self._match(TokenType.SEMICOLON)
         return DoWhileStatement(body, test)
 
     def _parse_for_statement(self) -> Node:
@@ -622,8 +623,15 @@ class Parser:
         return ExpressionStatement(expr)
 
     def _consume_semicolon(self) -> None:
-        """Consume a semicolon if present (ASI simulation)."""
-        self._match(TokenType.SEMICOLON)
+        """End of a statement: a semicolon, or (automatic semicolon insertion) a
+        closing brace, the end of the source or a line break before the next token."""
+        if self._match(TokenType.SEMICOLON):
+            return
+        if self._check(TokenType.RBRACE) or self._is_at_end():
+            return
+        if self.previous is not None and self.current.line != self.previous.line:
+            return
+        raise self._error("Expected ';' between statements")
 
     # ---- Expressions ----
 
